@@ -1,6 +1,6 @@
 /-
-  C18 helper lemmas, part 3: RFC 7386 `mergePatch` has the same abstract semantics on well-typed
-  (body, patch) pairs; static well-typedness implies that `_apply_patch` does not raise.
+  C18 helper lemmas, part 4: RFC 7386 `mergePatch` has the same abstract semantics, for every
+  target and every patch (no well-typedness or key-uniqueness assumption).
 -/
 import Kopf.Lemmas.C18_Abs
 namespace Kopf.C18
@@ -63,79 +63,70 @@ theorem mergePatch_leaf (t v : J) (ho : v.isObj = false) : mergePatch t v = v :=
   | obj _ => simp [isObj] at ho
   | _ => rw [mergePatch] <;> simp
 
-/-! ### static well-typedness only reads the targets of the patch's own keys -/
-theorem wtKvs_congr (tk tk' : List (String × J)) :
-    ∀ (pk : List (String × J)), (∀ kv ∈ pk, lookup kv.1 tk = lookup kv.1 tk') → wtKvs tk pk = wtKvs tk' pk
-  | [], _ => by simp [wtKvs]
-  | (k, v) :: rest, h => by
-      rw [wtKvs, wtKvs, h (k, v) (by simp), wtKvs_congr tk tk' rest (fun kv hkv => h kv (by simp [hkv]))]
+/-- a mapping patch over a non-mapping target starts from the empty mapping -/
+theorem mergePatch_obj_nonobj (t : J) (pk : List (String × J)) (ho : t.isObj = false) :
+    mergePatch t (.obj pk) = .obj (mergeKvs [] pk) := by
+  cases t with
+  | obj _ => simp [isObj] at ho
+  | _ => rw [mergePatch] <;> simp
 
-theorem wtAt_none (v : J) : wtAt none v = true := by
-  cases v <;> simp [wtAt]
+theorem clrA_all_none (M : LeafMap) (x : J) (h : M [] = some x) : clrA M [] = leafAt (.obj []) := by
+  funext q; simp [clrA, h, leafAt_empty]
 
-theorem wtKvs_nil : ∀ (pk : List (String × J)), wtKvs [] pk = true
-  | [] => by simp [wtKvs]
-  | (k, v) :: rest => by simp [wtKvs, J.lookup, wtAt_none, wtKvs_nil rest]
+theorem clrA_noop (M : LeafMap) (P : List String) (h : M P = none) : clrA M P = M := by
+  funext q; simp [clrA, h]
 
-theorem not_mem_keys_of_any {k : String} {xs : List (String × J)} (h : (xs.any (·.1 == k)) = false) :
-    ∀ kv ∈ xs, kv.1 ≠ k := by
-  intro kv hkv e
-  have : (xs.any (·.1 == k)) = true := List.any_eq_true.mpr ⟨kv, hkv, by simp [e]⟩
-  rw [h] at this; exact absurd this (by simp)
-
-/-! ### RFC 7386 merge = the abstract semantics, on well-typed pairs -/
+/-! ### RFC 7386 merge = the abstract semantics -/
 mutual
-  theorem mergePatch_sem : ∀ (v : J) (t : Option J), v.isNull = false → wtAt t v = true → J.wf v = true →
+  theorem mergePatch_sem : ∀ (v : J) (t : Option J), v.isNull = false →
       leafAt (mergePatch (t.getD .null) v) = absInstr (Lopt t) [] v
-    | .null, _, hn, _, _ => by simp [isNull] at hn
-    | .bool x, t, _, _, _ => by
+    | .null, _, hn => by simp [isNull] at hn
+    | .bool x, t, _ => by
         rw [mergePatch_leaf _ _ rfl, absInstr]; funext q; simp [setA, leafAt_nonobj (.bool x) rfl q]
-    | .num x, t, _, _, _ => by
+    | .num x, t, _ => by
         rw [mergePatch_leaf _ _ rfl, absInstr]; funext q; simp [setA, leafAt_nonobj (.num x) rfl q]
-    | .str x, t, _, _, _ => by
+    | .str x, t, _ => by
         rw [mergePatch_leaf _ _ rfl, absInstr]; funext q; simp [setA, leafAt_nonobj (.str x) rfl q]
-    | .arr x, t, _, _, _ => by
+    | .arr x, t, _ => by
         rw [mergePatch_leaf _ _ rfl, absInstr]; funext q; simp [setA, leafAt_nonobj (.arr x) rfl q]
-    | .obj pk, t, _, hwt, hwf => by
+    | .obj pk, t, _ => by
         rw [absInstr]
-        have hwf' : wfKvs pk = true := by simpa [J.wf] using hwf
         cases t with
         | none =>
+          rw [clrA_noop _ [] (by rfl)]
           have : Lopt none = leafAt (.obj []) := by funext q; simp [Lopt, leafAt_empty]
           rw [this]
-          simp only [Option.getD, mergePatch]
-          exact mergeKvs_sem pk [] (wtKvs_nil pk) hwf'
+          simp only [Option.getD]
+          rw [mergePatch_obj_nonobj _ _ rfl]
+          exact mergeKvs_sem pk []
         | some tj =>
-          cases tj with
-          | obj tk =>
+          by_cases ho : tj.isObj = true
+          · obtain ⟨tk, rfl⟩ : ∃ tk, tj = .obj tk := by cases tj <;> simp [isObj] at ho; exact ⟨_, rfl⟩
+            rw [clrA_noop _ [] (by rfl)]
             simp only [Option.getD, mergePatch, Lopt]
-            exact mergeKvs_sem pk tk (by simpa [wtAt] using hwt) hwf'
-          | _ => simp [wtAt] at hwt
+            exact mergeKvs_sem pk tk
+          · have ho' : tj.isObj = false := by simpa using ho
+            have hl : Lopt (some tj) [] = some tj := by
+              simp only [Lopt]; rw [leafAt_nonobj tj ho' []]; simp
+            rw [clrA_all_none _ tj hl]
+            simp only [Option.getD]
+            rw [mergePatch_obj_nonobj _ _ ho']
+            exact mergeKvs_sem pk []
   theorem mergeKvs_sem : ∀ (pk : List (String × J)) (tk : List (String × J)),
-      wtKvs tk pk = true → wfKvs pk = true →
       leafAt (.obj (mergeKvs tk pk)) = absKvs (leafAt (.obj tk)) [] pk
-    | [], tk, _, _ => by rw [mergeKvs, absKvs]
-    | (k, v) :: rest, tk, hwt, hwf => by
-        simp only [wfKvs, Bool.and_eq_true, Bool.not_eq_eq_eq_not, Bool.not_true] at hwf
-        obtain ⟨⟨hk, hv⟩, hrest⟩ := hwf
-        simp only [wtKvs, Bool.and_eq_true] at hwt
-        obtain ⟨hwv, hwr⟩ := hwt
-        have hne := not_mem_keys_of_any hk
+    | [], tk => by rw [mergeKvs, absKvs]
+    | (k, v) :: rest, tk => by
         rw [absKvs, List.nil_append]
         cases hnull : v.isNull with
         | true =>
           have : v = .null := by cases v <;> simp_all [isNull]
           subst this
           rw [mergeKvs_cons_null, absInstr, ← leafAt_erase]
-          refine mergeKvs_sem rest (J.erase k tk) ?_ hrest
-          rw [wtKvs_congr (J.erase k tk) tk rest (fun kv hkv => lookup_erase_other _ _ _ (hne kv hkv))]
-          exact hwr
+          exact mergeKvs_sem rest (J.erase k tk)
         | false =>
           rw [mergeKvs_cons_nonnull _ _ _ _ hnull,
-            ← leafAt_insert k _ tk v (mergePatch_sem v (lookup k tk) hnull hwv hv)]
-          refine mergeKvs_sem rest _ ?_ hrest
-          rw [wtKvs_congr _ tk rest (fun kv hkv => lookup_insert_other _ _ _ _ (hne kv hkv))]
-          exact hwr
+            ← leafAt_insert k _ tk v (mergePatch_sem v (lookup k tk) hnull)]
+          exact mergeKvs_sem rest _
 end
 
 end Kopf.C18
